@@ -4,7 +4,7 @@ CONSTANTS
   Fix = FALSE
   Sigma = {97, 98}
   PatLens = {1, 2, 3}
-  Dg = {1, 2}
+  Dg = {1}
   MaxDigits = 1
   WordAlphabet = {97, 98, 65}
   MaxWordLen = 4
